@@ -102,6 +102,35 @@ def EmpS(d=2):
     return Struct(M.Emp, {"n": Int(), "dept": o}, name="Emp")
 
 
+def NTreeS(d=2):
+    o = _opt_of(Lazy(lambda: NTreeS(max(d - 1, 0))), t.Optional[M.NTree], "Optional[NTree]", d > 0)
+    return Struct(M.NTree, {"v": Int(), "parent": o}, name="NTree")
+
+
+def TDNodeS(d=2):
+    kids = Seq(list[M.TDNode], list, Lazy(lambda: TDNodeS(max(d - 1, 0))), 1 if d > 0 else 0, "list[TDNode]")
+    return Struct(M.TDNode, {"v": Int(), "kids": kids}, kind="typeddict", name="TDNode")
+
+
+def HostS(d=2):
+    o = _opt_of(Lazy(lambda: ItemS(max(d - 1, 0))), t.Optional[M.Item], "Optional[Item]", d > 0)
+    return Struct(M.Host, {"v": Int(), "item": o}, name="Host")
+
+
+def ItemS(d=2):
+    o = _opt_of(Lazy(lambda: HostS(max(d - 1, 0))), t.Optional[M.Host], "Optional[Host]", d > 0)
+    return Struct(M.Item, {"n": Int(), "host": o}, name="Item")
+
+
+def CycS(d=2):
+    o = _opt_of(Lazy(lambda: IndS(max(d - 1, 0))), t.Optional[M.Ind], "Optional[Ind]", d > 0)
+    return Struct(M.Cyc, {"v": Int(), "back": o}, name="Cyc")
+
+
+def IndS(d=2):
+    return Struct(M.Ind, {"v": Int(), "direct": Lazy(lambda: CycS(max(d - 1, 0)))}, name="Ind")
+
+
 class _OptRec(Shape):
     def __init__(self, inner, T, name, live):
         self.inner, self.T, self.name, self.live = inner, T, name, live
@@ -169,7 +198,8 @@ def wrappers():
 
 
 def recursive(d=2):
-    return [TreeS(d), ChainS(d), PNodeS(d), DNodeS(d), TNodeS(d), PingS(d), DeptS(d)]
+    return [TreeS(d), ChainS(d), PNodeS(d), DNodeS(d), TNodeS(d), PingS(d), DeptS(d), NTreeS(d), TDNodeS(d), HostS(d), ItemS(d),
+            CycS(d), IndS(d)]
 
 
 def depth2():
@@ -198,7 +228,7 @@ CORE = {
     "dict[str,int]", "dict[int,str]", "Mapping[str,int]", "Optional[int]", "Optional[str]", "int|None",
     "Point", "SPoint", "KPoint", "Line", "Bag", "Mixed", "NT", "NTS", "TD", "TDN", "TDChild", "TDReq", "Plain", "Slotted",
     "NewType(int)", "alias(list[int])", "alias(Point)", "alias('str')", "Final[int]",
-    "Tree", "Chain", "DNode", "Ping", "Dept",
+    "Tree", "Chain", "DNode", "Ping", "Dept", "NTree", "TDNode", "Item", "Cyc", "Ind",
     "list[list[int]]", "dict[str,list[int]]", "list[Point]", "dict[str,Point]", "list[Optional[int]]",
     "tuple[Point,list[int]]", "Optional[Point]", "list[date]", "list[TD]", "list[tuple[int,str]]",
 }
